@@ -50,6 +50,9 @@ class State:
         self.pending: list = []     # (cond, excname) raised by calls inside the current statement
         self.trace: list = []       # branch decisions, for path naming
         self.epoch = 0              # bumped at every heap write (keys opaque ghost functions to a heap version)
+        self.now = None             # symbolic allocation clock (set to NOW0 at entry)
+        self.born = []              # pending "everything in this havocked array was born before t" facts
+        self.conds = []             # branch decisions only (subset of pc; assumptions are not in here)
 
     def fork(self):
         s = State()
@@ -60,6 +63,9 @@ class State:
         s.pending = list(self.pending)
         s.trace = list(self.trace)
         s.epoch = self.epoch
+        s.now = self.now
+        s.born = list(self.born)
+        s.conds = list(self.conds)
         return s
 
     def hyps(self):
@@ -354,7 +360,30 @@ def py_round(x):
 
 INT32_MIN, INT32_MAX = -(2 ** 31), 2 ** 31 - 1
 
-PRE_ALLOC = z3.Function("pre_alloc", Obj, z3.BoolSort())
+# Allocation order: birth(o) is the (symbolic) time at which object o was allocated. Pre-state objects are born
+# before NOW0; every allocation takes the current time and advances it; a havoc (loop, call) advances it by an
+# unknown amount and everything found in the havocked heap was born before the new time.
+BIRTH = z3.Function("birth", Obj, z3.IntSort())
+NOW0 = z3.Int("now0")
+
+
+def PRE_ALLOC(o):
+    return BIRTH(o) < NOW0
+
+
+def born_before(arr, bound):
+    """forall indices: the references held by heap array `arr` were born before `bound` (None if not Obj-valued)."""
+    srt = arr.sort()
+    term, vars_ = arr, []
+    cur = srt
+    while isinstance(cur, z3.ArraySortRef):
+        v = z3.Const(f"bb_{len(vars_)}_{cur.domain()}", cur.domain())
+        vars_.append(v)
+        term = z3.Select(term, v)
+        cur = cur.range()
+    if cur != Obj or not vars_:
+        return None
+    return z3.ForAll(vars_, BIRTH(term) < bound)
 
 
 def alloc_axioms(exprs, param_refs=(), with_alloc=True):
@@ -378,12 +407,11 @@ def alloc_axioms(exprs, param_refs=(), with_alloc=True):
                 and z3.is_array(e):
             lens[e.decl().name()] = e
         stack.extend(e.children())
-    axs = [PRE_ALLOC(r) for r in param_refs] if with_alloc else []
+    axs = [PRE_ALLOC(r) for r in param_refs]
     for name, arr in lens.items():
         o = z3.Const("ax_o", Obj)
         axs.append(z3.ForAll([o], z3.Select(arr, o) >= 0))      # a list length is never negative
-    if not with_alloc:
-        return axs
+
     for name, arr in seen.items():
         srt = arr.sort()
         doms = []
@@ -488,11 +516,22 @@ class Exec:
         """Fresh allocation: not allocated in the pre-state (so different from every reference held by the
         initial heap or passed as a parameter) and different from earlier allocations."""
         o = z3.Const(T.fresh_name(base), Obj)
-        st.pc.append(z3.Not(PRE_ALLOC(o)))
-        for r in self.fresh_objs:
-            st.pc.append(o != r)
+        if st.born:
+            # facts about older heap contents are only needed once something new is allocated
+            st.pc.extend(st.born)
+            st.born = []
+        st.pc.append(BIRTH(o) == st.now)
+        st.pc.append(st.now >= NOW0)
+        st.now = st.now + 1
         self.fresh_objs.append(o)
         return o
+
+    def advance_time(self, st):
+        """Unknown code ran (loop iterations, a callee): time moved on by an unknown amount."""
+        n1 = z3.Int(T.fresh_name("now"))
+        st.pc.append(n1 >= st.now)
+        st.now = n1
+        return n1
 
     def note_ref(self, e):
         self.known_refs.append(e)
@@ -823,6 +862,14 @@ class Exec:
     _pending_region = None
 
     def ev_Dict(self, node, st):
+        if node.keys and all(isinstance(k, ast.Constant) and isinstance(k.value, str) for k in node.keys):
+            # record literal {"a": x, "b": y}
+            vals = [self.ev(v, st) for v in node.values]
+            ty = T.Struct(**{k.value: v.ty for k, v in zip(node.keys, vals)})
+            terms = []
+            for v in vals:
+                terms += v.terms
+            return V(ty, terms)
         if node.keys:
             raise Unsupported("non-empty dict literal", node)
         dty = self._pending_dict_type
@@ -995,6 +1042,10 @@ class Exec:
                 self.oblige(st, "safety", f"none-subscript@{getattr(node, 'lineno', 0)}", z3.Not(base.terms[0]), node)
             base = T.opt_inner(base)
             ty = base.ty
+        if isinstance(ty, T.Struct):
+            if not (isinstance(idxnode, ast.Constant) and idxnode.value in ty.names):
+                raise Unsupported("record key", node)
+            return T.tuple_items(base)[ty.names.index(idxnode.value)]
         if isinstance(ty, T.Tuple):
             i = self.ev(idxnode, st)
             if not z3.is_int_value(z3.simplify(i.t)):
@@ -1079,6 +1130,15 @@ class Exec:
         n_res = z3.Int(T.fresh_name("comp_n"))
         self.h.list_set_len(st, r, n_res, lty)
         res = V(lty, [r])
+        if not g.ifs:
+            # plain map: same length, element k comes from source element k
+            st4 = st.fork()
+            self.assign(g.target, at(k, st4), st4, node)
+            elt_k = self.ev(node.elt, st4)
+            st.pc.append(n_res == n_src)
+            st.pc.append(z3.ForAll([k], z3.Implies(z3.And(k >= 0, k < n_res),
+                                                   self.equal(self.h.list_get(st, lty, r, k), T.coerce(elt_k, lty.t)))))
+            return res
         conds = [self.truthy(st2, self.ev(c, st2)) for c in g.ifs]
         cond_k = z3.And(*conds) if conds else z3.BoolVal(True)
         got = self.h.list_get(st, lty, r, k)
@@ -1162,11 +1222,13 @@ class Exec:
             if self.feasible(h):
                 s2 = st.fork()
                 s2.pc = h
+                s2.conds = s2.conds + none_raised + [cond]
                 s2.trace.append(f"!{exc}")
                 res.append(Outcome("raise", s2, exc=exc))
             none_raised.append(z3.Not(cond))
         for o in outs_normal:
             o.st.pc = o.st.pc + none_raised
+            o.st.conds = o.st.conds + none_raised
             res.append(o)
         return res
 
@@ -1392,6 +1454,7 @@ class Exec:
                     s1 = st0.fork()
                     if not z3.is_true(cs):
                         s1.pc.append(c)
+                        s1.conds.append(c)
                     s1.trace.append("T")
                     b1 = self.run_block(s.body, s1)
             if not z3.is_true(cs):
@@ -1400,6 +1463,7 @@ class Exec:
                     s2 = st0.fork()
                     if not z3.is_false(cs):
                         s2.pc.append(z3.Not(c))
+                        s2.conds.append(z3.Not(c))
                     s2.trace.append("F")
                     b2 = self.run_block(s.orelse, s2)
             merged = None
@@ -1428,6 +1492,9 @@ class Exec:
         if sa.epoch != st0.epoch or sb.epoch != st0.epoch:
             Exec._epoch_ctr[0] += 1
             m.epoch = Exec._epoch_ctr[0]
+        m.now = sa.now if sa.now.eq(sb.now) else z3.If(c, sa.now, sb.now)
+        seen_b = {b.get_id() for b in st0.born}
+        m.born = list(st0.born) + [b for b in sa.born + sb.born if b.get_id() not in seen_b]
         extra_a = [p for p in sa.pc[n0:] if not p.eq(c)]
         extra_b = [p for p in sb.pc[n0:] if not p.eq(z3.Not(c))]
         for p in extra_a:
